@@ -348,7 +348,8 @@ pub fn run_case(c: &C14Case, n: u64) -> Verdict {
         if let Some(d) = c.opts.disk_env() {
             inner = inner.env("FCLONES_VERIF_DISK_KIND", d);
         }
-        let o = inner.env("TERM", "xterm").run();
+        // (`script` hands the command line to $SHELL -c; the $'..' quoting style needs bash, not dash)
+        let o = inner.env("TERM", "xterm").env("SHELL", "/bin/bash").run();
         let written = std::fs::read(&outfile).unwrap_or_default();
         if !o.timed_out && (parse_text(&written).is_err() || text_body(&written) != text_body(&text.out.stdout)) {
             return mk_fail(
